@@ -12,7 +12,7 @@ use bio::io::fasta::{Index, IndexedReader};
 use serde_json::json;
 use std::rc::Rc;
 
-/// sequence-name alphabet: printable ASCII without white space and '"' (csv quoting of the .fai),
+/// sequence-name alphabet: printable ASCII without white space ('"' included since /repo 6276305),
 /// plus a few multi-byte characters; 'c' first (simplest).
 fn name_chars() -> &'static [char] {
     static A: std::sync::OnceLock<Vec<char>> = std::sync::OnceLock::new();
@@ -438,6 +438,10 @@ fn run_history(w: &W, f: &FileModel, steps: u64, allow_faults: bool, allow_cut: 
         intact: cut.is_none(),
     };
     let mut st = Fetched::None;
+    // read operations performed since the last successful fetch: the property speaks of "fetching
+    // … and then reading"; whether a *second* read without a new fetch returns the same slice again
+    // or an error ("nothing fetched") is left open, so from the second read on both are accepted
+    let mut reads_since_fetch = 0u32;
     let mut log: Vec<serde_json::Value> = Vec::new();
     let mut prev_failed_read = false;
     let mut prev_iter_dropped = false;
@@ -512,11 +516,14 @@ fn run_history(w: &W, f: &FileModel, steps: u64, allow_faults: bool, allow_cut: 
                         Fetched::None => None,
                     });
                 }
-                (Ok(()), Some(r)) => st = Fetched::Region(r),
+                (Ok(()), Some(r)) => {
+                    st = Fetched::Region(r);
+                    reads_since_fetch = 0;
+                }
                 (Err(e), Some(r)) => {
                     // fetch of an existing record: only an invalid interval may be refused here
                     let len = f.recs[r.rid].seq.len() as u64;
-                    if r.s <= r.e && r.e <= len {
+                    if r.s <= r.e && r.e <= len && cx.intact {
                         return fail(
                             "C12.c-must-succeed",
                             format!("step {}: {:?} on an existing record with a valid interval failed: {}", step, fop, e),
@@ -561,7 +568,11 @@ fn run_history(w: &W, f: &FileModel, steps: u64, allow_faults: bool, allow_cut: 
             eintr_pm,
             eio_pm,
         });
-        let accepts = expect_for(&cx, st);
+        let mut accepts = expect_for(&cx, st);
+        if reads_since_fetch > 0 && matches!(st, Fetched::Region(_)) {
+            accepts.push(Expect::MustFail("the fetched region was already read once"));
+            w.probe("re_read_without_new_fetch");
+        }
         // budget: bytes from the seek target to the end of the request, generously
         let span = match st {
             Fetched::Region(r) | Fetched::Unknown(Some(r)) if r.s <= r.e && r.e <= f.recs[r.rid].seq.len() as u64 => {
@@ -630,7 +641,9 @@ fn run_history(w: &W, f: &FileModel, steps: u64, allow_faults: bool, allow_cut: 
                                         }
                                     }
                                 }
-                                if items > max_items {
+                                // every injected fault may legally cost an extra (error) item
+                                let fault_items = 4 * ((w.eintr_total.get() - f0.0) + (w.eio_total.get() - f0.1));
+                                if items > max_items + fault_items {
                                     w.clause("C12.b-iter");
                                     if w.keep_trace {
                                         w.note("history", json!(log));
@@ -675,6 +688,9 @@ fn run_history(w: &W, f: &FileModel, steps: u64, allow_faults: bool, allow_cut: 
                 let v: Result<(), (String, String)> = match (acc, &outcome) {
                     (Expect::MustFail(_), Err(_)) => Ok(()),
                     (Expect::MustFail(_), Ok((_, _, Some(_)))) => Ok(()),
+                    // an iterator that was abandoned before it ended may not have reached the point
+                    // where a lazily validating implementation reports the error: not judged
+                    (Expect::MustFail(_), Ok((_, false, None))) if partial => Ok(()),
                     (Expect::MustFail(why), Ok((d, _, None))) => Err((
                         "C12.d-must-fail".into(),
                         format!("step {}: {:?} after {:?} returned Ok({:?}) although {}", step, rop, fop, show(d), why),
@@ -735,6 +751,11 @@ fn run_history(w: &W, f: &FileModel, steps: u64, allow_faults: bool, allow_cut: 
                 let (clause, msg) = verdicts.into_iter().next().unwrap().unwrap_err();
                 return fail(&clause, msg);
             }
+            reads_since_fetch += 1;
+            // within a repeated read the second repetition is a re-read as well
+            if rep == 0 && reps == 2 && matches!(st, Fetched::Region(_)) && accepts.len() == 1 {
+                accepts.push(Expect::MustFail("the fetched region was already read once"));
+            }
             // probes about the outcome
             match &outcome {
                 Err(_) | Ok((_, _, Some(_))) => {
@@ -748,7 +769,6 @@ fn run_history(w: &W, f: &FileModel, steps: u64, allow_faults: bool, allow_cut: 
                 }
                 Ok((d, _, None)) => {
                     if prev_failed_read {
-                        w.clause("C12.e-independent");
                         w.probe("exact_read_after_failed_operation");
                     }
                     prev_failed_read = false;
@@ -921,7 +941,7 @@ fn ix_allpairs(w: &W) -> Verdict {
 fn ix_partitions(w: &W) -> Verdict {
     let limit = if crate::world::thorough() { 18 } else { 14 };
     let mut f = gen_file(w, Scale::Small, 2, 6);
-    // shrink to the limit: keep only the first record, then give up
+    // files above the limit are skipped (the sweep is exponential in the file length)
     if f.bytes.len() > limit {
         return Ok(());
     }
@@ -1005,15 +1025,15 @@ pub fn property() -> Property {
         stubs: &["the seekable file (SimSeekRead: short reads, EINTR, EIO on read and seek)", "the .fai stream (SimRead: short reads)", "samtools faidx (harness reference indexer)", "truncation of the FASTA file after indexing"],
         assumptions: &[
             "the .fai matches the file (offsets, line_bases, line_bytes computed by the harness); a single-line record may be described by its own length or by the nominal width",
-            "sequence names contain no white space, tab or double quote",
-            "after a failed fetch either an error or the exact previously fetched slice is accepted for a following read (the property does not say which)",
+            "sequence names contain no white space or tab (a double quote is allowed since /repo 6276305)",
+            "after a failed fetch either an error or the exact previously fetched slice is accepted for a following read; from the second read after one fetch on, either the same exact slice or an error is accepted (the property does not say which)",
             "on a truncated file a request whose bytes are all present may either succeed exactly or fail; a request that needs missing bytes must fail",
             "an Err is excused only if EINTR/EIO fired during that same operation, the file is truncated, or the request is invalid",
         ],
         expected_probes: &[
             "read_boundary_before_terminator", "read_boundary_inside_crlf", "line_longer_than_iterator_buffer", "line_longer_than_bufreader",
             "start_on_line_boundary", "stop_on_line_boundary", "empty_interval_read", "iterator_dropped_half_way", "operation_after_dropped_iterator",
-            "read_after_failed_read", "exact_read_after_failed_operation", "operation_failed_by_injected_fault", "cut_inside_requested_range",
+            "read_after_failed_read", "re_read_without_new_fetch", "exact_read_after_failed_operation", "operation_failed_by_injected_fault", "cut_inside_requested_range",
             "cut_after_requested_range", "cut_inside_terminator_after_range", "short_file_reported_as_error", "fetch_rejected_unknown_target",
             "file_without_final_terminator", "empty_record", "fai_rows_not_in_file_order", "magic_size_run", "large_regime", "many_records_regime", "huge_regime", "allpairs_sweep", "all_partitions_sweep",
         ],
